@@ -178,6 +178,11 @@ func outcomeOf(d ociregistry.Descriptor, err error) Outcome {
 
 func (s *regSys) exec(op Op) (out Outcome) {
 	ctx := s.ctx
+	if op.Ctx == "done" {
+		c, cancel := context.WithCancel(ctx)
+		cancel()
+		ctx = c
+	}
 	u := s.u
 	switch op.K {
 	case "PushBlob":
